@@ -273,7 +273,14 @@ def run(ctx: core.Ctx):
                     o = np.zeros(n, "int16")
                     I["gammastd_grp"](rr, g, 2, -9999.0, cal, o)
                     return o
-                if all(len(set(v for v in rr[g == k_].tolist() if v > 0)) >= 2 for k_ in (0, 1)):
+                def cond_ok(vals):
+                    # float32 logarithms carry a relative error of 6e-8; the fit amplifies it by 1 / s with s = log(mean) - mean(log):
+                    # for s < 1e-3 the result is not determined to single-precision accuracy (out of the claim for float32 input)
+                    pos = np.array([v for v in vals if v > 0], dtype="float64")
+                    return dt != "float32" or (np.log(pos.mean()) - np.log(pos).mean()) >= 1e-3
+                if all(len(set(v for v in rr[g == k_].tolist() if v > 0)) >= 2 for k_ in (0, 1)) and not all(cond_ok(rr[g == k_].tolist()) for k_ in (0, 1)):
+                    ctx.count("gammastd_grp: float32 input, group with s < 1e-3 (ill-conditioned in single precision): skipped")
+                elif all(len(set(v for v in rr[g == k_].tolist() if v > 0)) >= 2 for k_ in (0, 1)):
                     cmp("gammastd_grp", dict(x=rr.tolist(), dtype=dt), lambda: stats.gammastd_grp(rr, g, 2.0, -9999.0, cal), it_grp, kind="band")
                 else:
                     ctx.count("gammastd_grp: group with < 2 distinct positive values (s == 0 knife-edge in float32): skipped")
